@@ -1950,11 +1950,11 @@ void Router::markPolylineConnectorsNeedingReroutingForDeletedObstacle(
             }
 
             double x;
-            if ((b + d) == 0)
-            {
-                db_printf("WARNING: (b + d) == 0\n");
-                d = d * -1;
-            }
+            // The length of the detour via a point of this side's line
+            // depends only on how far start and end are from that line,
+            // not on which side of it they lie.
+            b = fabs(b);
+            d = fabs(d);
 
             if ((b == 0) && (d == 0))
             {
